@@ -49,12 +49,20 @@ package remote
 // counted, C05) and resizes it to the new parameters (C05, C06); only a type change, or the first sync, builds a new one.
 //@ const keptType = old(f.FlowControl) != nil && fcTypeOf(old(f.FlowControl)) == newType
 
+//@ const schemaTypeOf = (schema.Exempt != nil ? "Exempt" : ((schema.MaxRequestsInflight != nil || schema.GlobalMaxRequestsInflight != nil) ? "MaxRequestsInflight" : ((schema.TokenBucket != nil || schema.GlobalTokenBucket != nil) ? "TokenBucket" : "Exempt")))
+
+//@ func (*flowControlCache).newMeterFlowControl props C05, C06
+//@   trusted "builds the limiter for the schema (NewFlowControl, proved) inside a meter wrapper that forwards Type() to it"
+//@   modifies mifmax, tbq, tbb
+//@   ensures result != nil && fresh(result) && fcTypeOf(result) == schemaTypeOf
+
 //@ func (*localWrapper).Sync props C05, C06
 //@   requires [cache] f.flowControlCache != nil
 //@   requires [acc] (schema.GlobalMaxRequestsInflight != nil ==> schema.MaxRequestsInflight != nil) && (schema.GlobalTokenBucket != nil ==> schema.TokenBucket != nil)
 //@   modifies *
 //@   ensures [unchanged_keeps_limiter] !defined(newType) ==> f.FlowControl == old(f.FlowControl) && fcsize == old(fcsize) && fcburst == old(fcburst)
 //@   ensures [holders_follow_limiter] old(f.FlowControl) != nil && f.FlowControl != old(f.FlowControl) ==> held[old(f.FlowControl)] == 0 onlyfor C05
+//@   ensures [limiter_has_schema_type] defined(newType) ==> newType == schemaTypeOf && f.FlowControl != nil && fcTypeOf(f.FlowControl) == newType
 //@   ensures [same_type_keeps_limiter] defined(newType) ==> (keptType ==> f.FlowControl == old(f.FlowControl))
 //@   ensures [inflight_resized] defined(newType) ==> (keptType && newType == "MaxRequestsInflight" && schema.MaxRequestsInflight != nil ==> fcsize[f.FlowControl] == uint32(schema.MaxRequestsInflight.Max))
 //@   ensures [bucket_resized] defined(newType) ==> (keptType && newType == "TokenBucket" && schema.TokenBucket != nil ==> fcsize[f.FlowControl] == uint32(schema.TokenBucket.QPS) && fcburst[f.FlowControl] == uint32(schema.TokenBucket.Burst))
